@@ -634,11 +634,31 @@ def execute(trace, env=None):
     if blanky:
         stats['observed_with_blank_override'] = stats.get(
             'observed_with_blank_override', 0) + 1
-    if not outs and not blanky:
-        # every overridden position is a populated cell (generator rule), so
-        # dependents are judged on the *observed* values of those cells and
-        # the overridden cells themselves against the supplied values
-        bad, st = fp.check(obs, pinned_cells=pinned_cells, only=present)
+    if not outs:
+        # dependents are judged on the *observed* values of the overridden
+        # cells and the overridden cells themselves against the supplied
+        # values.  When the override also covers BLANK positions, formulas
+        # that read one of those positions are left out (what they see of a
+        # value pushed onto an unpopulated cell is not settled), everything
+        # else is still checked - in particular the populated members.
+        only = present
+        if blanky:
+            idx1 = Index(world)
+            bpos = {p for p in pinned_pos if idx1.occupant(p) is None}
+            only = []
+            for i, c in enumerate(world['cells']):
+                if present is not None and i not in present:
+                    continue
+                if 'f' in c:
+                    hit = False
+                    for x in refs_of(c['f']):
+                        r = x if x[0] == 'r' else world['names'][x[1]]['t']
+                        if bpos & set(rect_cells(r)):
+                            hit = True
+                    if hit:
+                        continue
+                only.append(i)
+        bad, st = fp.check(obs, pinned_cells=pinned_cells, only=only)
         stats['exact_checked'] += st['formula_checked']
         if st['oracle_errors']:
             stats.setdefault('oracle_errors', []).extend(
